@@ -16,7 +16,7 @@ theorem limited_read_exact (B after : Bytes) (buf total fuel : Nat) (fin : EndSt
     Body.readUpTo fuel (.limited B.length) buf total (B ++ after) fin =
       if total ≤ B.length then (B.take total, none, .limited (B.length - total), B.drop total ++ after)
       else (B, some .eof, .done, after) := by
-  sorry
+  exact limited_readUpTo fuel B after buf total fin hb hf
 
 /-- small bodies buffered at parse time: same contract, and the connection's byte stream is not
     touched by reading them. -/
@@ -25,12 +25,13 @@ theorem buffered_read_exact (B bs : Bytes) (buf total fuel : Nat) (fin : EndStat
     Body.readUpTo fuel (.cursor B) buf total bs fin =
       if total ≤ B.length then (B.take total, none, .cursor (B.drop total), bs)
       else (B, some .eof, .cursor [], bs) := by
-  sorry
+  exact cursor_readUpTo fuel B bs buf total fin hb hf
 
 /-- the buffered body is exactly the next `n` bytes after the head. -/
 theorem buffered_is_next_n (n : Nat) (B after : Bytes) (h : B.length = n) :
     initialBody (.buffered n) (B ++ after) = (.cursor B, after) := by
-  sorry
+  subst h
+  simp [initialBody]
 
 /-- protocol upgrade: all remaining bytes of the connection, verbatim, then end-of-stream when
     the client has closed. -/
@@ -39,12 +40,12 @@ theorem upgrade_read_exact (bs : Bytes) (buf total fuel : Nat)
     Body.readUpTo fuel .raw buf total bs .eof =
       if total ≤ bs.length then (bs.take total, none, .raw, bs.drop total)
       else (bs, some .eof, .raw, []) := by
-  sorry
+  exact raw_readUpTo fuel bs buf total hb hf
 
 /-- no framing header, or `Content-Length: 0`: the body is empty and nothing is consumed. -/
 theorem empty_read (bs : Bytes) (buf total fuel : Nat) (fin : EndState) (ht : 0 < total) (hf : 0 < fuel) :
     Body.readUpTo fuel .done buf total bs fin = ([], some .eof, .done, bs) := by
-  sorry
+  exact done_readUpTo bs buf total fuel fin ht hf
 
 /-- Chunked bodies, for every chunking a client may choose (chunk sizes, hex case, leading
     zeros, extensions): the application obtains exactly the first `total` bytes of the
@@ -60,7 +61,20 @@ theorem chunked_read_exact (cs : List Spec.SentChunk) (zero after : Bytes) (buf 
     r.1 = (Spec.chunkPayload cs).take total ∧
       (total ≤ (Spec.chunkPayload cs).length → r.2.1 = none) ∧
       ((Spec.chunkPayload cs).length < total → r.2.1 = some .eof ∧ r.2.2.1 = .done ∧ r.2.2.2 = after) := by
-  sorry
+  intro r
+  obtain ⟨i1, i2, i3⟩ := chunked_readUpTo zero after hz buf fin hb fuel none _ _ total
+    (ChunkPos.line cs hcs) hf
+  refine ⟨i1, ?_, ?_⟩
+  · intro hle
+    obtain ⟨ic', S', e, _⟩ := i2 hle
+    show (Body.readUpTo fuel (.chunked none) buf total (Spec.renderChunked cs zero ++ after) fin).2.1 = none
+    rw [e]
+  · intro hlt
+    show (Body.readUpTo fuel (.chunked none) buf total (Spec.renderChunked cs zero ++ after) fin).2.1 = some .eof ∧
+      (Body.readUpTo fuel (.chunked none) buf total (Spec.renderChunked cs zero ++ after) fin).2.2.1 = .done ∧
+      (Body.readUpTo fuel (.chunked none) buf total (Spec.renderChunked cs zero ++ after) fin).2.2.2 = after
+    rw [i3 hlt]
+    exact ⟨rfl, rfl, rfl⟩
 
 /-- Transfer-Encoding takes precedence over Content-Length and the declared length is reported
     exactly when a Content-Length is used. -/
@@ -69,7 +83,7 @@ theorem te_precedence (hs : List Header) (fr : Framing)
     (hup : ∀ h, findHeader hs b!"Connection" = some h → containsSub (lower h.value) b!"upgrade" = false)
     (hf : framingOf hs = .ok fr) :
     fr.kind = .chunked ∧ fr.bodyLength = none := by
-  sorry
+  exact framingOf_te hs fr hte hup hf
 
 theorem declared_length (hs : List Header) (fr : Framing) (h : Header) (n : Nat)
     (hte : findHeader hs b!"Transfer-Encoding" = none)
@@ -80,14 +94,14 @@ theorem declared_length (hs : List Header) (fr : Framing) (h : Header) (n : Nat)
       (fr.kind = .upgrade ∨ (n = 0 ∧ fr.kind = .empty) ∨
        (0 < n ∧ n ≤ Extracted.smallBodyLimit ∧ fr.expectContinue = false ∧ fr.kind = .buffered n) ∨
        (0 < n ∧ fr.kind = .limited n)) := by
-  sorry
+  exact framingOf_cl hs fr h n hte hcl hn hf
 
 theorem no_framing_no_body (hs : List Header) (fr : Framing)
     (hte : findHeader hs b!"Transfer-Encoding" = none)
     (hcl : findHeader hs b!"Content-Length" = none)
     (hf : framingOf hs = .ok fr) :
     fr.bodyLength = none ∧ (fr.kind = .empty ∨ fr.kind = .upgrade) := by
-  sorry
+  exact framingOf_none hs fr hte hcl hf
 
 /-- non-vacuity: a two-chunk body with upper-case hex, leading zeros and an extension. -/
 example : (Body.readUpTo 100 (.chunked none) 3 50
